@@ -160,15 +160,7 @@ Definition s_finalise (t : tree) (s : sst) (h : nat) : option sst :=
                    | Some _ => true
                    | None => negb (Nat.eqb (length roots2) (length roots1))
                    end in
-    (* best_finalized_number: Some(node.number) on application, Some(number) whenever the
-       retain loop runs over a non-empty root list *)
-    let bf := match roots1 with
-              | [] => match found with
-                      | Some n => Some (number t (pc_blk (n_change n)))
-                      | None => s_bestfin s
-                      end
-              | _ => Some (number t h)
-              end in
+    let bf := Some (number t h) in
     if changed then
       let forced := filter (fun c => (number t h <? eff t c) && sdesc t h (pc_blk c)) (s_forced s) in
       match found with
